@@ -36,7 +36,7 @@ CLS = {"DDM": (DDM, DDMModel), "EDDM": (EDDM, EDDMModel), "STEPD": (STEPD, STEPD
 
 EXH_CFG = {
     "quick": {
-        "DDM": [(1, 2, 3), (3, 1.1, 1.5), (2, 1.0, 2.0), (4, 0.5, 1.0)],
+        "DDM": [(1, 2, 3), (3, 1.1, 1.5), (2, 1.0, 2.0), (4, 0.5, 1.0), (3, 3.0, 2.0)],
         "EDDM": [(1, 0.95, 0.9), (2, 1.0, 0.8), (3, 0.9, 0.5), (2, 0.75, 0.75)],
         "STEPD": [(1, 0.2, 0.05), (2, 0.3, 0.1), (3, 0.05, 0.003), (2, 0.5, 0.5), (2, 0.95, 0.9)],
     },
@@ -81,15 +81,21 @@ def rand_cfg(det, rng):
         nt = int(rng.choice([1, 2, 3, 5, 10, 30]))
         ws = float(rng.choice([0.5, 1.0, 1.5, 2.0]))
         ds = ws + float(rng.choice([0.0, 0.5, 1.0, 2.0]))
+        if rng.random() < 0.15:
+            ws, ds = ds + 0.5, ws  # thresholds in the other order (accepted): the drift level is then reached first, and drift takes precedence
         return (nt, ws, ds)
     if det == "EDDM":
         nt = int(rng.choice([1, 2, 3, 5, 10, 30]))
         wt = float(rng.choice([1.0, 0.98, 0.95, 0.9, 0.8]))
         dt = wt - float(rng.choice([0.0, 0.05, 0.1, 0.3]))
+        if rng.random() < 0.15:
+            wt, dt = dt - 0.05, wt
         return (nt, wt, dt)
     w = int(rng.choice([1, 2, 3, 5, 10, 30]))
     aw = float(rng.choice([0.5, 0.3, 0.1, 0.05]))
     ad = aw * float(rng.choice([1.0, 0.5, 0.1, 0.06]))
+    if rng.random() < 0.15:
+        aw, ad = ad, min(0.9, aw * 1.5)
     return (w, aw, ad)
 
 
